@@ -1,5 +1,6 @@
 """C16  Only documented mutators change their arguments; aliases see mutations."""
 import itertools
+import re
 import os
 
 from vf.core import Finding
@@ -57,6 +58,17 @@ MUTATING_FORMS = {"A[B] = C", "A[B] += C", "A->a = B",
                   "for k in A do remove(A, k) end",
                   "for x in A do insert_at(A, 0, x); if length(A) > 9 then "
                   "break end"}
+
+_MUTATES_A = re.compile(
+    r"\b(?:append|append_all|insert_at|delete_at|remove|put)\(A\b"
+    r"|\bA\[[^\]]*\] *[-+*/%]?= |\bA->\w+ *[-+*/%]?= ")
+
+
+def mutates_target(form):
+    """Does the form apply a documented in-place mutator (or an element /
+    member assignment) to its first operand?"""
+    return form in MUTATING_FORMS or _MUTATES_A.search(form) is not None
+
 
 # Functions and forms that may hand back one of their argument objects:
 # selectors (the result is *chosen* among the arguments), conversions of a
@@ -149,7 +161,7 @@ def run_snap(case, budget=2.0):
         name = None
         src = c13.form_src(case["form"], len(vals))
         label = "form:" + case["form"]
-        target_ok = case["form"] in MUTATING_FORMS
+        target_ok = mutates_target(case["form"])
     before = [sw.snapshot(v) for v in vals]
     out = sw.run_src(src, bindings, budget)
     if out[0] == "timeout":
@@ -223,7 +235,7 @@ def run_fuzz_snap(case, budget=2.0):
     else:
         src = c13.form_src(case["form"], len(vals))
         label = "form:" + case["form"]
-        target_ok = case["form"] in MUTATING_FORMS
+        target_ok = mutates_target(case["form"])
         may_return_arg = _returns_argument_form(case["form"])
         targets = {0}
     if case.get("shared"):
